@@ -79,6 +79,13 @@ def composed_corpus(ctx: Ctx, path: Path) -> int:
             if st and st not in setups:
                 setups.append(st)
         units.append(f"def _c{k}({', '.join(params)}):\n    _ = {expr}\n")
+    # two checks on the very same node: an idiom passed as an argument that equals the parameter's default (FURB120 reports the
+    # argument, the idiom's own check reports the same expression)
+    for k, r in enumerate(pure[: ctx.budget(120, 400)]):
+        params = [f"{q}: {ANNOT[t]}" for q, t in r.params.items()]
+        if r.setup and r.setup not in setups:
+            setups.append(r.setup)
+        units.append(f"def _d{k}({', '.join(params)}):\n    def _inner(p=({r.lhs})):\n        return p\n    return _inner(({r.lhs}))\n")
     path.write_text("from typing import Any\nimport os, io, re, math, operator, itertools, functools\n" + "".join(setups) + "\n" + "\n".join(units))
     return len(units)
 
